@@ -199,13 +199,26 @@ Definition spec_fill (ς : sstate) (t : nat) (v : V) : option sstate :=
   end.
 
 (* --- copies: fresh cells, same shape, same logical elements --- *)
-Definition spec_copy_of (ς : sstate) (t : nat) (keep_order : bool) : option (sstate * nat) :=
+Fixpoint pos_of (c : nat) (l : list nat) : nat :=
+  match l with [] => O | x :: r => if Nat.eqb x c then O else S (pos_of c r) end.
+
+(* [keep_order]: Clone / SafeT keep the data order; [keep_pending]: Clone also keeps a pending
+   lazy transpose (the thunk is cloned with the tensor), SafeT's copy starts from the source's
+   current arrangement; Materialize yields a plain row-major tensor *)
+Definition spec_copy_gen (ς : sstate) (t : nat) (keep_order keep_pending : bool) : option (sstate * nat) :=
   match sget ς t with
   | None => None
   | Some x =>
     let '(ς1, cells) := s_alloc ς (slogical ς x) in
-    Some (s_add ς1 (mkSten (s_shape x) cells None 0 false (keep_order && s_cm x)))
+    let undo := if keep_pending then
+                  match s_undo x with
+                  | Some (sh0, cells0) => Some (sh0, map (fun c => nth (pos_of c (s_cells x)) cells O) cells0)
+                  | None => None
+                  end
+                else None in
+    Some (s_add ς1 (mkSten (s_shape x) cells undo (if keep_pending then s_pending x else O) false (keep_order && s_cm x)))
   end.
+Definition spec_copy_of (ς : sstate) (t : nat) (keep_order : bool) := spec_copy_gen ς t keep_order false.
 
 (* Copy(dst, src): dst's cells receive src's logical elements in logical order (equal sizes) *)
 Definition spec_copy_into (ς : sstate) (dt st : nat) : option sstate :=
